@@ -6,6 +6,7 @@ package main
 //   - writes evidence/<id>.json, prints KNOWN-FINDING / VIOLATION lines
 
 import (
+	"go/types"
 	"encoding/json"
 	"fmt"
 	"os"
@@ -155,6 +156,13 @@ func checkProperty(id string, thorough, verbose bool, replayFile string, timeout
 				if !seenAssumed[u] {
 					seenAssumed[u] = true
 					assumedUsed = append(assumedUsed, u)
+					if uc.Iface {
+						for _, ic := range ld.implContracts(u) {
+							if !done[ic.Key] {
+								queue = append(queue, ic)
+							}
+						}
+					}
 				}
 				continue
 			}
@@ -442,4 +450,65 @@ func forProperty(name, id string) bool {
 		}
 	}
 	return false
+}
+
+// implContracts: the repository's own implementations (with a verified contract) of an
+// interface method that a verified function calls through the interface. Their obligations belong
+// to the property as well: the assumed interface contract is what callers rely on, the
+// implementation's contract is what the framework itself provides behind it.
+func (ld *Loaded) implContracts(ifaceKey string) []*Contract {
+	name := strings.TrimPrefix(ifaceKey, "iface:")
+	i := strings.LastIndex(name, ".")
+	if i < 0 {
+		return nil
+	}
+	meth := name[i+1:]
+	rest := name[:i]
+	j := strings.LastIndex(rest, ".")
+	if j < 0 {
+		return nil
+	}
+	pkgPath, ifaceName := rest[:j], rest[j+1:]
+	var iface *types.Interface
+	for _, p := range ld.prog.AllPackages() {
+		if p.Pkg.Path() == pkgPath {
+			if obj := p.Pkg.Scope().Lookup(ifaceName); obj != nil {
+				iface, _ = obj.Type().Underlying().(*types.Interface)
+			}
+		}
+	}
+	if iface == nil {
+		return nil
+	}
+	var out []*Contract
+	for _, p := range ld.prog.AllPackages() {
+		if !strings.HasPrefix(p.Pkg.Path(), "github.com/go-netty/") {
+			continue
+		}
+		for _, n := range p.Pkg.Scope().Names() {
+			tn, ok := p.Pkg.Scope().Lookup(n).(*types.TypeName)
+			if !ok || tn.IsAlias() {
+				continue
+			}
+			if _, isIface := tn.Type().Underlying().(*types.Interface); isIface {
+				continue
+			}
+			for _, t := range []types.Type{types.NewPointer(tn.Type()), tn.Type()} {
+				if !types.Implements(t, iface) {
+					continue
+				}
+				var key string
+				if _, isPtr := t.(*types.Pointer); isPtr {
+					key = "(*" + p.Pkg.Path() + "." + n + ")." + meth
+				} else {
+					key = "(" + p.Pkg.Path() + "." + n + ")." + meth
+				}
+				if c := ld.cs.Funcs[key]; c != nil && !c.Assumed && !c.Iface && !c.Inline && len(ld.fnByKey[key]) > 0 {
+					out = append(out, c)
+				}
+				break
+			}
+		}
+	}
+	return out
 }
